@@ -58,15 +58,23 @@ func nasConstructors(ctx *Ctx, tab *refnas.Table) {
 	// Registration Request: every argument, including the rarely used optional ones (requested NSSAI, uplink data status)
 	for si, suci := range sucis {
 		for ci, c := range caps {
-			for _, clen := range []int{-1, 0, 1, 40, 255, 256, 300} {
+			for _, clen := range []int{-1, 0, 1, 40, 255, 256, 300, -2, -3} {
 				for variant := 0; variant < 8; variant++ {
 					mm, withNssai, withUds := variant&1 != 0, variant&2 != 0, variant&4 != 0
-					if variant > 1 && !(ci == 0 && (clen == -1 || clen == 40)) {
+					if variant > 1 && !(ci == 0 && (clen == -1 || clen == 40 || clen < -1)) {
 						continue
 					}
 					var cont []byte
 					if clen >= 0 {
 						cont = pattern(2, clen)
+					}
+					// containers that are themselves NAS messages (what TS 24.501 4.4.6 puts there): a plain REGISTRATION REQUEST
+					// and a SERVICE REQUEST
+					if clen == -2 {
+						cont = nasTestpacket.GetRegistrationRequest(nasMessage.RegistrationType5GSInitialRegistration, *sucis[0], nil, caps[0], nil, nil, nil)
+					}
+					if clen == -3 {
+						cont = nasTestpacket.GetServiceRequest(nasMessage.ServiceTypeData)
 					}
 					var cap5 *nasType.Capability5GMM
 					if mm {
@@ -186,7 +194,7 @@ func nasConstructors(ctx *Ctx, tab *refnas.Table) {
 				if psi > 16 && dnn != "internet" {
 					continue
 				}
-				sn := &models.Snssai{Sst: int32(1 + psi%3), Sd: []string{"010203", "ffffff", "000001"}[psi%3]}
+				sn := &models.Snssai{Sst: int32(1 + psi%3), Sd: []string{"010203", "ffffff", "000001", "ABCDEF", "0A0b0C", "12AbcD"}[psi%6]}
 				cs := fmt.Sprintf("GetUlNasTransport_PduSessionEstablishmentRequest psi=%d requestType=%d dnn=%d octets sst=%d sd=%s", psi, rt, len(dnn), sn.Sst, sn.Sd)
 				var b []byte
 				if perr := recoverErr(func() { b = nasTestpacket.GetUlNasTransport_PduSessionEstablishmentRequest(uint8(psi), rt, dnn, sn) }); perr != nil {
